@@ -66,8 +66,9 @@ def reverse_within_ticks(text):
     return nl.join(out)
 
 
-def fresh(cases, flags=()):
+def fresh(cases, flags=(), env_extra=None):
     env = dict(os.environ)
+    env.update(env_extra or {})
     p = subprocess.run(["/venv/bin/python", *flags, "-c", FRESH, str(fw.REPO), str(fw.ROOT)], input=json.dumps(cases).encode(),
                        stdout=subprocess.PIPE, stderr=subprocess.PIPE, env=env, timeout=600)
     try:
@@ -254,6 +255,7 @@ def slice(ctx: fw.Ctx) -> fw.Outcome:
     finally:
         sys.setswitchinterval(old)
     paths(ctx, out, cases)
+    hash_seeds(ctx, out)
     try:
         wrapped(ctx, out)
     except (AttributeError, ImportError, TypeError) as ex:  # the private functions are gone, renamed or no longer functools-wrapped: nothing to compare
@@ -375,6 +377,30 @@ def paths(ctx, out, cases):
                               f"{q_[:100]!r}, its text read from a stream {p_[:100]!r}", {"op": "resave", "old": old, "new": new, "how": 3}, observed=q_, promised=p_)
 
 
+def hash_seeds(ctx, out):
+    """a fresh interpreter is a fresh interpreter whatever its string-hash seed: the same text and selection (several wanted tracks, in
+    several orders, as list and as tuple) under PYTHONHASHSEED 0, 1, 2, 3 and 'random' give one and the same observation"""
+    head = "[Song]\n{\n  Resolution = 192\n}\n[SyncTrack]\n{\n  0 = TS 4\n  0 = B 120000\n}\n[Events]\n{\n  10 = E \"section a\"\n}\n"
+    sec_ = lambda tag, k: f"[{tag}]\n{{\n  {k} = N 0 0\n  {k + 50} = N 1 0\n  {k + 50} = S 2 10\n}}\n"  # noqa: E731
+    text = head + "".join(sec_(t, 10 * (j + 1)) for j, t in enumerate(["ExpertSingle", "HardSingle", "ExpertDrums", "ExpertDoubleBass", "EasyKeyboard"]))
+    sels = [None, [(0, 3), (0, 2), (4, 3), (2, 3), (5, 0)], [(5, 0), (2, 3), (4, 3), (0, 2), (0, 3)], [(4, 3), (0, 3)], [(0, 3), (4, 3), (0, 3)]]
+    batch = [(text, w) for w in sels]
+    ref = None
+    for seed in ("0", "1", "2", "3", "random"):
+        got = fresh(batch, env_extra={"PYTHONHASHSEED": seed})
+        for (t, w), x in zip(batch, got):
+            out.case(fw.h(["hashseed", seed, w]), True, None, tags=["hash-seed"])
+        if ref is None:
+            ref = got
+            continue
+        for (t, w), x, r in zip(batch, got, ref):
+            if x != r:
+                p_, q_ = fw.first_diff(r, x)
+                out.violation("hashseed-" + fw.h([seed, w]), f"the same text and selection {w} observed in fresh interpreters with PYTHONHASHSEED=0 and ={seed} differ: {p_[:100]!r} vs {q_[:100]!r}",
+                              {"op": "hashseed", "text": t, "want": w, "seed": seed}, observed=q_, promised=p_)
+                return
+
+
 def wrapped(ctx, out):
     """memoised functions against their originals"""
     from chartparse.instrument import Note, NoteTrackIndex, _refined_sustain_tuple
@@ -401,6 +427,12 @@ def wrapped(ctx, out):
 
 
 def replay(ctx, data):
+    if data.get("op") == "hashseed":
+        w = data["want"]
+        w = None if w is None else [tuple(k) for k in w]
+        a = fresh([(data["text"], w)], env_extra={"PYTHONHASHSEED": "0"})[0]
+        b = fresh([(data["text"], w)], env_extra={"PYTHONHASHSEED": str(data["seed"])})[0]
+        return a != b, str(fw.first_diff(a, b))[:300]
     if data.get("op") == "resave":
         import os
         import tempfile
